@@ -32,6 +32,7 @@ type call struct {
 	key        interface{}
 	write      bool
 	seq        int  // arrival order
+	shard      int  // sharded maps: where the key was routed when the caller arrived (-1: single map / not routable)
 	unroutable bool // a key kind remap cannot route, on a sharded map: Acquire* panics before anything is locked
 	task       *sched.Task
 	cancel     context.CancelFunc
@@ -59,7 +60,8 @@ type world struct {
 	event   int
 	hits    []corr.Hit
 	hitSet  map[string]bool
-	objs    map[int]*ptrObj // pointees of the pointer keys of this script
+	objs    map[int]*ptrObj   // pointees of the pointer keys of this script
+	others  []semap.SemMapper // other containers created by `newmap` while this one is in use
 }
 
 func (w *world) hit(site, what string) {
@@ -263,9 +265,13 @@ func (w *world) acquire(tid int, tok string, key interface{}, routable, write, p
 	}
 	c := &call{tid: tid, tok: tok, key: key, write: write, seq: len(w.order), cancel: cancel}
 	c.unroutable = w.variant != "single" && !routable
+	c.shard = -1
 	// routing of the sharded variants: a function of the key, inside the shard array
 	if !c.unroutable {
 		i1, n1 := semap.VerifShardIndex(w.m, key)
+		if w.variant != "single" {
+			c.shard = i1
+		}
 		i2, n2 := semap.VerifShardIndex(w.m, key)
 		if i1 != i2 || n1 != n2 || i1 < 0 || i1 >= n1 {
 			w.hit("wide-routing", fmt.Sprintf("key %s routed to shard %d then %d of %d/%d", tok, i1, i2, n1, n2))
@@ -584,9 +590,34 @@ func (w *world) monitors(line string) {
 	}
 }
 
+// routingStable: routing is a pure function of the key — the shard of a key somebody holds or waits for never
+// changes, whatever was looked up in between and whatever other containers were created or used in the process.
+// Checked through the map's own routing function (hook), in arrival order and in reverse (a lookup may itself
+// disturb a history-dependent router, so one order could hide what the other shows).
+func (w *world) routingStable(line string) {
+	if w.variant == "single" {
+		return
+	}
+	check := func(c *call) {
+		if c.shard < 0 || (c.status != stInside && c.status != stParked) {
+			return
+		}
+		if i, n := semap.VerifShardIndex(w.m, c.key); i != c.shard {
+			w.hit("wide-routing-changed", fmt.Sprintf("after `%s`: key %s of caller %d (still inside or blocked) was routed to shard %d when it arrived and is routed to shard %d of %d now", line, c.tok, c.tid, c.shard, i, n))
+		}
+	}
+	for _, c := range w.order {
+		check(c)
+	}
+	for i := len(w.order) - 1; i >= 0; i-- {
+		check(w.order[i])
+	}
+}
+
 // idleEntries: when nobody is inside or blocked on any key, the container must be empty — whatever dynamic type or
 // value the keys had when the entries were created (a per-key lookup would miss an entry stored under another key).
 func (w *world) idleEntries(line string) {
+	w.routingStable(line)
 	for _, c := range w.order {
 		if c.status == stInside || c.status == stParked {
 			return
@@ -696,6 +727,31 @@ func runCase(c corr.Case) (res corr.Result) {
 				w.monitors(line)
 				w.idleEntries(line)
 				return o
+			case len(f) == 4 && f[0] == "newmap": // ANOTHER container is created and used while this one is in use
+				rw, ok1 := natCanon(f[2], 6)
+				prime, ok2 := natCanon(f[3], 4)
+				if (f[1] != "single" && f[1] != "wide" && f[1] != "xhash") || !ok1 || !ok2 || rw == 0 {
+					return "bad-op"
+				}
+				o := newWorld(f[1], rw, prime)
+				w.others = append(w.others, o.m)
+				t := w.s.Go("newmap-use", func() string {
+					for _, k := range []interface{}{"other", 7, "x"} {
+						sw, err := o.m.AcquireWrite(context.Background(), k)
+						if err != nil {
+							return "err"
+						}
+						o.m.ReleaseWrite(k, sw)
+					}
+					return "ok"
+				})
+				w.settle()
+				if done, res := t.Done(); !done || res != "ok" {
+					w.hit("panic", fmt.Sprintf("`%s`: a fresh container could not be used (%v %s)", line, done, res))
+				}
+				w.monitors(line)
+				w.idleEntries(line)
+				return "ok"
 			case len(f) == 2 && f[0] == "poke": // the pointee of pointer key p<n> changes (work done under the lock); the key does not
 				n, ok := natCanon(f[1], 3)
 				if !ok {
